@@ -86,8 +86,9 @@ static void *c20_alloc(int site)
 {
     qt_blocking_queue_node_t *j = qt_mpool_alloc(syscall_job_pool);
     int prev = shadow_set(j, 1);
-    /* stale contents on purpose: every bit of the slots set, so that memcpy'd ints keep garbage above them */
-    memset(j->args, 0xff, sizeof(j->args));
+    /* stale contents on purpose: every bit of the record set (slots: memcpy'd ints keep garbage above them; any further
+     * field such as an error code starts as garbage, -1); the wrapper sets next/thread/op itself */
+    memset(j, 0xff, sizeof(*j));
     j->ret = 0x5a5a5a5a5a5a5a5aLL;
     lg(K_ALLOC, SELFP, (uint64_t)j, site, qthread_id(), prev == 1, 0, 0, 0);
     return j;
@@ -102,7 +103,7 @@ static void c20_free(void *p, int site)
         return;
     }
     lg(K_FREE, SELFP, (uint64_t)j, site, 0, 0, 0, 0, 0);
-    j->ret = 0x6b6b6b6b6b6b6b6bLL;   /* poison: a read of ret after the free is visible as a wrong result */
+    memset(j, 0x6b, sizeof(*j));     /* poison: a read of ret (or any other field) after the free is visible as a wrong result */
     qt_mpool_free(syscall_job_pool, j);
 }
 
@@ -186,6 +187,11 @@ extern unsigned int qt_sleep(unsigned int);
 extern int          qt_usleep(useconds_t);
 extern int          qt_nanosleep(const struct timespec *, struct timespec *);
 
+/* errno must be re-located after every call that may park the task: it can resume on another worker pthread, and
+ * __errno_location() is declared const, so the compiler would otherwise reuse the old thread's address */
+static __attribute__((noinline)) int  cur_errno(void) { __asm__ volatile ("" ::: "memory"); return *__errno_location(); }
+static __attribute__((noinline)) void set_errno(int v) { __asm__ volatile ("" ::: "memory"); *__errno_location() = v; }
+
 /* ------------------------------------------------------------------ helpers */
 static const char *scratch = "/var/tmp";
 static int         uniq    = 0;
@@ -266,7 +272,7 @@ typedef struct {
 } scen_t;
 
 #define CALLLOG(wid, p0, p1, p2, p3, p4) lg(K_CALL, qthread_id(), s->idx, wid, (uint64_t)(int64_t)(p0), (uint64_t)(int64_t)(p1), (uint64_t)(int64_t)(p2), (uint64_t)(int64_t)(p3), (uint64_t)(int64_t)(p4))
-#define RETLOG(r) do { int e_ = errno; lg(K_RET, qthread_id(), s->idx, (uint64_t)(int64_t)(r), e_, 0, 0, 0, 0); errno = e_; } while (0)
+#define RETLOG(r) do { int e_ = cur_errno(); lg(K_RET, qthread_id(), s->idx, (uint64_t)(int64_t)(r), e_, 0, 0, 0, 0); set_errno(e_); } while (0)
 
 static volatile aligned_t ticker_count = 0, ticker_stop = 0, reader_done = 0;
 
@@ -294,9 +300,9 @@ static void one_side(scen_t *s, int w)   /* w = 0 direct, 1 wrapper */
                 else if (m) { unsigned char *d = malloc(m); fill(d, m, 12); (void)!syscall(SYS_write, other, d, m); free(d); }
                 if (m == 0 && !s->a[4]) { close(other); other = -1; }   /* EOF */
             } else { fd = 987654; }
-            errno = 0;
+            set_errno(0);
             if (w) { CALLLOG(W_READ, fd, (intptr_t)buf, n, 0, 0); r = qt_read(fd, buf, n); RETLOG(r); } else { r = read(fd, buf, n); }
-            e = errno; s->returns += w;
+            e = cur_errno(); s->returns += w;
             if (hasth) pthread_join(th, NULL);
             size_t got = r > 0 ? ((size_t)r > n ? n : (size_t)r) : 0;   /* a wrapper that returns garbage must not crash the harness */
             uint64_t h = fnv(buf, got, FNV0); int canary = buf[got] == 0xA5;
@@ -311,9 +317,9 @@ static void one_side(scen_t *s, int w)   /* w = 0 direct, 1 wrapper */
             int fdk = s->a[0]; size_t m = s->a[1], n = s->a[2]; off_t off = s->a[3]; int fd = -1, p[2] = { -1, -1 };
             if (fdk == 0) { fd = mkfile(m, 21, 0); lseek(fd, 7 % (m + 1), SEEK_SET); if (off > (1L << 31)) { (void)!syscall(SYS_pwrite64, fd, "tail-marker", 11, off); } }
             else if (fdk == 1) { if (pipe(p)) exit(4); fd = p[0]; (void)!syscall(SYS_write, p[1], "abc", 3); } else fd = 987654;
-            errno = 0;
+            set_errno(0);
             if (w) { CALLLOG(W_PREAD, fd, (intptr_t)buf, n, off, 0); r = qt_pread(fd, buf, n, off); RETLOG(r); } else { r = pread(fd, buf, n, off); }
-            e = errno; s->returns += w;
+            e = cur_errno(); s->returns += w;
             size_t got = r > 0 ? ((size_t)r > n ? n : (size_t)r) : 0;
             uint64_t h = fnv(buf, got, FNV0); char t[200] = "";
             if (fdk == 0) file_obs(fd, t, sizeof t); else if (fdk == 1) drain_obs(fd, t, sizeof t);
@@ -328,9 +334,9 @@ static void one_side(scen_t *s, int w)   /* w = 0 direct, 1 wrapper */
             else if (fdk == 1) { if (pipe(p)) exit(4); fd = p[1]; other = p[0]; }
             else if (fdk == 2) { if (socketpair(AF_UNIX, SOCK_STREAM, 0, p)) exit(4); fd = p[1]; other = p[0]; }
             else fd = 987654;
-            fill(buf, n, 32); errno = 0;
+            fill(buf, n, 32); set_errno(0);
             if (w) { CALLLOG(W_WRITE, fd, (intptr_t)buf, n, 0, 0); r = qt_write(fd, buf, n); RETLOG(r); } else { r = write(fd, buf, n); }
-            e = errno; s->returns += w;
+            e = cur_errno(); s->returns += w;
             if (fdk == 0 || fdk == 4) file_obs(fd, o, on); else if (fdk != 3) drain_obs(other, o, on);
             if (fdk != 3) close(fd);
             if (other >= 0) close(other);
@@ -340,9 +346,9 @@ static void one_side(scen_t *s, int w)   /* w = 0 direct, 1 wrapper */
             int fdk = s->a[0]; size_t m = s->a[1], n = s->a[2]; off_t off = s->a[3]; int fd = -1, other = -1, p[2];
             if (fdk == 0) { fd = mkfile(m, 41, 0); lseek(fd, 5 % (m + 1), SEEK_SET); }
             else if (fdk == 1) { if (pipe(p)) exit(4); fd = p[1]; other = p[0]; } else fd = 987654;
-            fill(buf, n, 42); errno = 0;
+            fill(buf, n, 42); set_errno(0);
             if (w) { CALLLOG(W_PWRITE, fd, (intptr_t)buf, n, off, 0); r = qt_pwrite(fd, buf, n, off); RETLOG(r); } else { r = pwrite(fd, buf, n, off); }
-            e = errno; s->returns += w;
+            e = cur_errno(); s->returns += w;
             if (fdk == 0) file_obs(fd, o, on); else if (fdk == 1) drain_obs(other, o, on);
             if (fdk != 3) close(fd);
             if (other >= 0) close(other);
@@ -359,17 +365,17 @@ static void one_side(scen_t *s, int w)   /* w = 0 direct, 1 wrapper */
             if (s->kind == W_POLL) {
                 for (int i = 0; i < n; i++) { int wr = (s->a[2] >> i) & 1; pf[i].fd = wr ? pr[i][1] : pr[i][0]; pf[i].events = wr ? POLLOUT : POLLIN; pf[i].revents = 0x7000; }
                 int to = s->a[3] == 0 ? 0 : s->a[3] == 1 ? 15 : -1;
-                errno = 0;
+                set_errno(0);
                 if (w) { CALLLOG(W_POLL, (intptr_t)pf, n, to, 0, 0); r = qt_poll(pf, n, to); RETLOG(r); } else { r = poll(pf, n, to); }
-                e = errno; s->returns += w;
+                e = cur_errno(); s->returns += w;
                 int k = 0; for (int i = 0; i < n; i++) k += snprintf(o + k, on - k, "%x.", (unsigned)pf[i].revents);
             } else {
                 fd_set rs, ws, es; FD_ZERO(&rs); FD_ZERO(&ws); FD_ZERO(&es); int mx = 0; struct timeval tv, *tp;
                 for (int i = 0; i < n; i++) { int wr = (s->a[2] >> i) & 1; int fd = wr ? pr[i][1] : pr[i][0]; FD_SET(fd, wr ? &ws : &rs); FD_SET(fd, &es); if (fd + 1 > mx) mx = fd + 1; }
                 tv.tv_sec = 0; tv.tv_usec = s->a[3] == 1 ? 15000 : 0; tp = s->a[3] == 2 ? NULL : &tv;
-                errno = 0;
+                set_errno(0);
                 if (w) { CALLLOG(W_SELECT, mx, (intptr_t)&rs, (intptr_t)&ws, (intptr_t)&es, (intptr_t)tp); r = qt_select(mx, &rs, &ws, &es, tp); RETLOG(r); } else { r = select(mx, &rs, &ws, &es, tp); }
-                e = errno; s->returns += w;
+                e = cur_errno(); s->returns += w;
                 int k = 0; for (int i = 0; i < n; i++) { int wr = (s->a[2] >> i) & 1; int fd = wr ? pr[i][1] : pr[i][0]; k += snprintf(o + k, on - k, "%d%d%d.", FD_ISSET(fd, &rs) ? 1 : 0, FD_ISSET(fd, &ws) ? 1 : 0, FD_ISSET(fd, &es) ? 1 : 0); }
             }
             for (int i = 0; i < nth; i++) pthread_join(th[i], NULL);
@@ -385,10 +391,10 @@ static void one_side(scen_t *s, int w)   /* w = 0 direct, 1 wrapper */
                 if (s->a[0] == 1) fcntl(ls, F_SETFL, O_NONBLOCK);
                 if (s->a[0] == 0 || s->a[0] == 3) { c = socket(AF_UNIX, SOCK_STREAM, 0); if (syscall(SYS_connect, c, &sa, sizeof sa)) { perror("conn"); exit(4); } (void)!syscall(SYS_write, c, "hello", 5); }
             } else ls = 987654;
-            errno = 0;
+            set_errno(0);
             if (w) { CALLLOG(W_ACCEPT, ls, (intptr_t)(s->a[1] ? &peer : NULL), (intptr_t)(s->a[1] ? &pl : NULL), 0, 0); r = qt_accept(ls, s->a[1] ? (struct sockaddr *)&peer : NULL, s->a[1] ? &pl : NULL); RETLOG(r); }
             else { r = accept(ls, s->a[1] ? (struct sockaddr *)&peer : NULL, s->a[1] ? &pl : NULL); }
-            e = errno; s->returns += w;
+            e = cur_errno(); s->returns += w;
             char t[100] = "";
             if (r >= 0) { drain_obs(r, t, sizeof t); close(r); r = 1000; /* canonical: a new descriptor */ }
             snprintf(o, on, "fam=%d,len=%d,%s", s->a[1] ? (int)peer.sun_family : -1, s->a[1] ? (int)pl : -1, t);
@@ -403,9 +409,9 @@ static void one_side(scen_t *s, int w)   /* w = 0 direct, 1 wrapper */
             if (s->a[0] == 0 || s->a[0] == 3) { ls = socket(AF_UNIX, SOCK_STREAM, 0); if (bind(ls, (struct sockaddr *)&sa, sizeof sa) || listen(ls, 4)) { perror("bind"); exit(4); } }
             if (s->a[0] == 3) al = 1;
             c = s->a[0] == 2 ? 987654 : socket(AF_UNIX, SOCK_STREAM, 0);
-            errno = 0;
+            set_errno(0);
             if (w) { CALLLOG(W_CONNECT, c, (intptr_t)&sa, al, 0, 0); r = qt_connect(c, (struct sockaddr *)&sa, al); RETLOG(r); } else { r = connect(c, (struct sockaddr *)&sa, al); }
-            e = errno; s->returns += w;
+            e = cur_errno(); s->returns += w;
             int acc = -1;
             if (r == 0 && ls >= 0) { fcntl(ls, F_SETFL, O_NONBLOCK); acc = syscall(SYS_accept, ls, NULL, NULL); }
             snprintf(o, on, "peer_accepted=%d", acc >= 0);
@@ -422,10 +428,10 @@ static void one_side(scen_t *s, int w)   /* w = 0 direct, 1 wrapper */
                 if (ch == 0) { char c_; close(hold[1]); if (s->a[0] == 1) (void)!syscall(SYS_read, hold[0], &c_, 1); _exit((int)s->a[1]); }
                 close(hold[0]);
             } else ch = 0x3fff0000 + 17;
-            errno = 0;
+            set_errno(0);
             if (w) { CALLLOG(W_WAIT4, ch, (intptr_t)&st, s->a[0] == 1 ? WNOHANG : 0, (intptr_t)(s->a[2] ? &ru : NULL), 0); r = qt_wait4(ch, &st, s->a[0] == 1 ? WNOHANG : 0, s->a[2] ? &ru : NULL); RETLOG(r); }
             else { r = wait4(ch, &st, s->a[0] == 1 ? WNOHANG : 0, s->a[2] ? &ru : NULL); }
-            e = errno; s->returns += w;
+            e = cur_errno(); s->returns += w;
             snprintf(o, on, "status=%x", (unsigned)st);
             if (r == ch && r > 0) r = 2000;   /* canonical: the child's pid */
             if (s->a[0] == 1) { close(hold[1]); syscall(SYS_wait4, ch, NULL, 0, NULL); } else if (hold[1] >= 0) close(hold[1]);
@@ -435,9 +441,9 @@ static void one_side(scen_t *s, int w)   /* w = 0 direct, 1 wrapper */
             char cmd[400], path[256]; snprintf(path, sizeof path, "%s/y%d_%d", scratch, (int)getpid(), __sync_fetch_and_add(&uniq, 1));
             if (s->a[0] == 0) snprintf(cmd, sizeof cmd, "exit %d", (int)s->a[1]); else snprintf(cmd, sizeof cmd, "echo line%d >> %s", (int)s->a[1], path);
             const char *cp = s->a[0] == 2 ? NULL : cmd;
-            errno = 0;
+            set_errno(0);
             if (w) { CALLLOG(W_SYSTEM, (intptr_t)cp, 0, 0, 0, 0); r = qt_system(cp); RETLOG(r); } else { r = system(cp); }
-            e = errno; s->returns += w;
+            e = cur_errno(); s->returns += w;
             if (s->a[0] == 1) { int fd = open(path, O_RDONLY); if (fd >= 0) { file_obs(fd, o, on); close(fd); unlink(path); } else snprintf(o, on, "nofile"); }
             if (s->a[0] == 2) r = (r != 0);
             break;
@@ -464,11 +470,11 @@ static void one_side(scen_t *s, int w)   /* w = 0 direct, 1 wrapper */
         }
         case W_SLEEP: {  /* a: which(0 sleep, 1 usleep, 2 nanosleep) amount(us) */
             struct timespec t0, t1, rq = { s->a[1] / 1000000, (s->a[1] % 1000000) * 1000 }, rm = { 0, 0 };
-            clock_gettime(CLOCK_MONOTONIC, &t0); errno = 0;
+            clock_gettime(CLOCK_MONOTONIC, &t0); set_errno(0);
             if (s->a[0] == 0) r = w ? qt_sleep((unsigned)(s->a[1] / 1000000)) : sleep((unsigned)(s->a[1] / 1000000));
             else if (s->a[0] == 1) r = w ? qt_usleep((useconds_t)s->a[1]) : usleep((useconds_t)s->a[1]);
             else r = w ? qt_nanosleep(&rq, &rm) : nanosleep(&rq, &rm);
-            e = errno; s->returns += w;
+            e = cur_errno(); s->returns += w;
             clock_gettime(CLOCK_MONOTONIC, &t1);
             long us = (t1.tv_sec - t0.tv_sec) * 1000000L + (t1.tv_nsec - t0.tv_nsec) / 1000;
             long want = s->a[0] == 0 ? (s->a[1] / 1000000) * 1000000 : s->a[1];
@@ -492,7 +498,7 @@ static aligned_t scen_task(void *a)
 static scen_t *tick_s; static int tick_pipe[2];
 static aligned_t blocked_reader(void *a)
 {
-    scen_t *s = tick_s; char b[8]; errno = 0;
+    scen_t *s = tick_s; char b[8]; set_errno(0);
     CALLLOG(W_READ, tick_pipe[0], (intptr_t)b, 4, 0, 0);
     long r = qt_read(tick_pipe[0], b, 4);
     RETLOG(r);
